@@ -155,4 +155,12 @@ META = {
     design_ref='DESIGN.md 6/C17',
     note='FanOut is observed at its Subscribe side through two real consumers. Envelope fidelity over wide inputs is C16.',
     technique='TLA+ relay protocol spec + fault-script trace validation on the real components'),
+ 'C16': dict(
+    text='Values.tla is a heap model of message values (cells own their metadata; Equals = record equality over uuid, payload and the complete key/value map); TLC checks CopyEquals, '
+         'Isolation and EmptyValueMatters over all operation sequences of length 3. Real message.Message values replay every small-scope operation sequence with the projected heap '
+         'and all Equals results validated step by step against the model; single-component-difference pairs and codec round trips (envelope, CQRS JSON/Protobuf/gogo marshalers incl. '
+         'name recovery, request-reply replies) are validated as identities. Strings and payloads are drawn per equivalence class (representative + seeded random members)',
+    design_ref='DESIGN.md 6/C16',
+    note='Closest to the edge of the technique: the spec contributes the aliasing/heap model and the small-scope enumeration; coverage of "all byte strings" is sampling and claimed as exploration.',
+    technique='TLA+ heap model + trace validation of enumerated operation sequences and sampled codec round trips (small-scope exhaustive + class sampling)'),
 }
